@@ -113,6 +113,983 @@ fn create(a: &mut Asm, init: &[u8], value: u64, salt: Option<u64>) {
     a.push_u(init.len() as u64).push_u(0).push_u(value).op(if salt.is_some() { 0xf5 } else { 0xf0 });
 }
 
+// ---------------------------------------------------------------------------------------------- frame scripts
+//
+// A small language for programs whose behaviour is spread over call frames. A script is a list of bodies; body 0 is
+// what the transaction runs, body k runs when the contract is entered with CALLDATASIZE = k. The same compiled code
+// sits at `A` (0x1000) and at its twin `B` (0x1001); a `Call` item enters body `k` by CALL to ADDRESS (re-entrancy),
+// DELEGATECALL / CALLCODE to the twin (same storage context), CALL / STATICCALL to the twin (other storage context).
+// Every per-frame accumulator that is merged into the parent on success only (refund counter, logs, journal entries
+// of storage / transient storage / warmth / balances / nonces / created accounts) can so be driven from any frame,
+// with each frame ending in success, REVERT or an exceptional halt.
+
+#[derive(Clone, Copy, Debug, PartialEq, Eq)]
+pub enum Kind {
+    CallSelf,
+    Delegate,
+    CallCode,
+    CallOther,
+    Static,
+}
+impl Kind {
+    pub fn tag(self) -> &'static str {
+        match self {
+            Kind::CallSelf => "call-self",
+            Kind::Delegate => "delegatecall",
+            Kind::CallCode => "callcode",
+            Kind::CallOther => "call-other",
+            Kind::Static => "staticcall",
+        }
+    }
+}
+
+#[derive(Clone, Copy, Debug, PartialEq, Eq)]
+pub enum End {
+    Stop,
+    Return,
+    Revert,
+    Invalid,
+    Underflow,
+    BadJump,
+    SelfDestruct(u64),
+    SelfDestructSelf,
+}
+impl End {
+    pub fn tag(self) -> &'static str {
+        match self {
+            End::Stop | End::Return => "S",
+            End::Revert => "R",
+            End::Invalid | End::Underflow | End::BadJump => "H",
+            End::SelfDestruct(_) | End::SelfDestructSelf => "D",
+        }
+    }
+}
+
+#[derive(Clone, Debug)]
+pub enum It {
+    Sstore(u64, u64),
+    Sload(u64),
+    Log(u64),
+    Tstore(u64, u64),
+    Tload(u64),
+    Balance(u64),
+    ExtCodeSize(u64),
+    /// enter body `body` of the script in a new frame
+    Call { kind: Kind, body: usize, gas: Option<u64>, value: u64 },
+    /// plain CALL without input to any address
+    CallAddr { to: u64, gas: Option<u64>, value: u64 },
+    /// CREATE / CREATE2 of an initcode of at most 32 bytes
+    Create { salt: Option<u64>, init: Vec<u8>, value: u64 },
+    Gas,
+}
+
+#[derive(Clone, Debug, Default)]
+pub struct Script {
+    pub bodies: Vec<(Vec<It>, End)>,
+    /// inner frames do not LOG what they observe (needed when a frame is static or when logs are the subject)
+    pub quiet: bool,
+}
+
+pub const OBS_BASE: u64 = 0x40;
+
+/// Observations: body 0 collects them in memory and returns (or reverts with) them; inner bodies emit `LOG1` with the
+/// observed word as the topic (dropped with the frame when it does not commit), or drop it.
+fn observe(a: &mut Asm, body: usize, nobs: &mut u64, log_inner: bool) {
+    if body == 0 {
+        a.push_u(OBS_BASE + 32 * *nobs).op(0x52);
+        *nobs += 1;
+    } else if log_inner {
+        a.push_u(0).push_u(0).op(0xa1);
+    } else {
+        a.op(0x50);
+    }
+}
+
+pub fn compile(s: &Script, twin: u64) -> Vec<u8> {
+    let mut a = Asm::new();
+    let n = s.bodies.len();
+    let mut labels = vec![];
+    for k in 1..n {
+        a.op(0x36).push_u(k as u64).op(0x14);
+        labels.push(a.push_label());
+        a.op(0x57);
+    }
+    for k in 0..n {
+        if k > 0 {
+            let t = a.here();
+            a.patch(labels[k - 1], t);
+            a.op(0x5b);
+        }
+        let (items, end) = &s.bodies[k];
+        let mut nobs = 0u64;
+        for it in items {
+            match it {
+                It::Sstore(slot, v) => {
+                    a.push_u(*v).push_u(*slot).op(0x55);
+                }
+                It::Sload(slot) => {
+                    a.push_u(*slot).op(0x54);
+                    observe(&mut a, k, &mut nobs, false);
+                }
+                It::Log(t) => {
+                    a.push_u(*t).push_u(0).push_u(0).op(0xa1);
+                }
+                It::Tstore(key, v) => {
+                    a.push_u(*v).push_u(*key).op(0x5d);
+                }
+                It::Tload(key) => {
+                    a.push_u(*key).op(0x5c);
+                    observe(&mut a, k, &mut nobs, !s.quiet);
+                }
+                It::Balance(addr) => {
+                    a.push_u(*addr).op(0x31);
+                    observe(&mut a, k, &mut nobs, !s.quiet);
+                }
+                It::ExtCodeSize(addr) => {
+                    a.push_u(*addr).op(0x3b);
+                    observe(&mut a, k, &mut nobs, !s.quiet);
+                }
+                It::Call { kind, body, gas, value } => {
+                    a.push_u(0).push_u(0).push_u(*body as u64).push_u(0);
+                    if matches!(kind, Kind::CallSelf | Kind::CallCode | Kind::CallOther) {
+                        a.push_u(*value);
+                    }
+                    if *kind == Kind::CallSelf {
+                        a.op(0x30);
+                    } else {
+                        a.push_u(twin);
+                    }
+                    match gas {
+                        Some(g) => {
+                            a.push_u(*g);
+                        }
+                        None => {
+                            a.op(0x5a);
+                        }
+                    }
+                    a.op(match kind {
+                        Kind::CallSelf | Kind::CallOther => 0xf1,
+                        Kind::CallCode => 0xf2,
+                        Kind::Delegate => 0xf4,
+                        Kind::Static => 0xfa,
+                    });
+                    observe(&mut a, k, &mut nobs, false);
+                }
+                It::CallAddr { to, gas, value } => {
+                    a.push_u(0).push_u(0).push_u(0).push_u(0).push_u(*value).push_u(*to);
+                    match gas {
+                        Some(g) => {
+                            a.push_u(*g);
+                        }
+                        None => {
+                            a.op(0x5a);
+                        }
+                    }
+                    a.op(0xf1);
+                    observe(&mut a, k, &mut nobs, false);
+                }
+                It::Create { salt, init, value } => {
+                    create(&mut a, init, *value, *salt);
+                    observe(&mut a, k, &mut nobs, !s.quiet);
+                }
+                It::Gas => {
+                    a.op(0x5a);
+                    observe(&mut a, k, &mut nobs, false);
+                }
+            }
+        }
+        match end {
+            End::Stop => {
+                a.op(0x00);
+            }
+            End::Return | End::Revert => {
+                if k == 0 {
+                    a.push_u(32 * nobs).push_u(OBS_BASE);
+                } else {
+                    a.push_u(0).push_u(0);
+                }
+                a.op(if *end == End::Return { 0xf3 } else { 0xfd });
+            }
+            End::Invalid => {
+                a.op(0xfe);
+            }
+            End::Underflow => {
+                a.op(0x50);
+            }
+            End::BadJump => {
+                a.push_u(1).op(0x56);
+            }
+            End::SelfDestruct(t) => {
+                a.push_u(*t).op(0xff);
+            }
+            End::SelfDestructSelf => {
+                a.op(0x30).op(0xff);
+            }
+        }
+    }
+    a.code
+}
+
+/// the case of a script: the compiled code at `A` and at the twin `B`, one transaction to `A` without calldata
+pub fn script_case(spec: SpecId, s: &Script, st_a: Vec<(u64, u64)>, st_b: Vec<(u64, u64)>, balance: u64, gas: u64) -> Case {
+    let mut c = base(spec);
+    let code = compile(s, B);
+    with_contract(&mut c, A, code.clone(), balance, st_a);
+    with_contract(&mut c, B, code, balance, st_b);
+    c.txs.push(call_tx(&c, Some(A), gas, 0, vec![]));
+    c
+}
+
+/// SSTORE values `vals[i]` on slot 0 placed at position `pos[i]` of the frame timeline
+/// 0 = outer before the call, 1 = inner before its call, 2 = inner-inner, 3 = inner after, 4 = outer after
+///
+/// `burn` fresh slots are written first in the outer frame: the gas they cost lifts the refund cap (1/5 of the gas
+/// spent from London, 1/2 before) above anything the pattern can earn, so that every refund delta stays visible
+pub fn sstore_plan(k1: Kind, k2: Kind, pos: &[usize], vals: &[u64], e1: End, e2: End, burn: u64) -> Script {
+    let at = |p: usize| -> Vec<It> {
+        pos.iter().zip(vals).filter(|(q, _)| **q == p).map(|(_, v)| It::Sstore(0, *v)).collect()
+    };
+    let use_ii = pos.contains(&2);
+    let mut b0: Vec<It> = (0..burn).map(|i| It::Sstore(0x10 + i, 1)).collect();
+    b0.extend(at(0));
+    b0.push(It::Call { kind: k1, body: 1, gas: Some(220_000), value: 0 });
+    b0.extend(at(4));
+    let mut b1 = at(1);
+    if use_ii {
+        b1.push(It::Call { kind: k2, body: 2, gas: Some(80_000), value: 0 });
+    }
+    b1.extend(at(3));
+    let mut bodies = vec![(b0, End::Return), (b1, e1)];
+    if use_ii {
+        bodies.push((at(2), e2));
+    }
+    Script { bodies, quiet: true }
+}
+
+const X: u64 = 5;
+const Y: u64 = 7;
+
+/// cross-frame SSTORE refund patterns (rule: refunds across nested calls)
+fn xframe_sstore(out: &mut Out, w: &mut Vec<Case>, big: bool) {
+    let specs = [
+        SpecId::CONSTANTINOPLE,
+        SpecId::PETERSBURG,
+        SpecId::ISTANBUL,
+        SpecId::BERLIN,
+        SpecId::LONDON,
+        SpecId::CANCUN,
+        SpecId::PRAGUE,
+    ];
+    // (original, written values): the transitions X→0, 0→X, X→Y, Y→X, 0→Y→0 chained
+    let seq2: Vec<(u64, Vec<u64>)> = if big {
+        let mut v = vec![];
+        for o in [0, X] {
+            for a in [0, X, Y] {
+                for b in [0, X, Y] {
+                    v.push((o, vec![a, b]));
+                }
+            }
+        }
+        v
+    } else {
+        vec![(X, vec![0, X]), (X, vec![0, Y]), (X, vec![Y, X]), (X, vec![Y, 0]), (0, vec![X, 0]), (0, vec![X, Y])]
+    };
+    let seq3: Vec<(u64, Vec<u64>)> = if big {
+        let mut v = vec![];
+        for o in [0, X] {
+            for s in [[0, Y, 0], [0, X, 0], [Y, 0, X], [Y, X, 0], [0, Y, X], [X, 0, X], [Y, 0, Y], [0, X, Y]] {
+                v.push((o, s.to_vec()));
+            }
+        }
+        v
+    } else {
+        vec![(X, vec![0, Y, 0]), (X, vec![0, X, 0]), (X, vec![Y, 0, X]), (0, vec![Y, 0, Y])]
+    };
+    let place2: [&[usize]; 7] = [&[0, 1], &[1, 4], &[1, 2], &[2, 3], &[0, 2], &[2, 4], &[1, 1]];
+    let place3: [&[usize]; 6] = [&[0, 1, 4], &[0, 1, 2], &[1, 2, 3], &[1, 2, 4], &[0, 2, 4], &[0, 2, 3]];
+    let (s, r, h) = (End::Stop, End::Revert, End::Invalid);
+    let ends1 = vec![(s, s), (r, s), (h, s)];
+    let ends2 = vec![(s, s), (s, r), (s, h), (r, s), (r, r), (r, h), (h, s), (h, r), (h, h)];
+    let kinds3 = [Kind::CallSelf, Kind::Delegate, Kind::CallCode];
+    let mut patterns: Vec<(u64, Vec<u64>, &[usize], End, End)> = vec![];
+    for (o, vals) in &seq2 {
+        for p in place2 {
+            for (e1, e2) in if p.contains(&2) { &ends2 } else { &ends1 } {
+                patterns.push((*o, vals.clone(), p, *e1, *e2));
+            }
+        }
+    }
+    for (o, vals) in &seq3 {
+        for p in place3 {
+            for (e1, e2) in if p.contains(&2) { &ends2 } else { &ends1 } {
+                patterns.push((*o, vals.clone(), p, *e1, *e2));
+            }
+        }
+    }
+    for (si, spec) in specs.iter().enumerate() {
+        for (pi, (o, vals, p, e1, e2)) in patterns.iter().enumerate() {
+            // the quick tier has the complete product with the three same-storage ways to enter a frame
+            let _ = (si, pi);
+            let kinds: Vec<(Kind, Kind)> = if big {
+                let mut v: Vec<(Kind, Kind)> = kinds3.iter().map(|k| (*k, *k)).collect();
+                v.push((Kind::CallOther, Kind::CallOther));
+                v.push((Kind::Delegate, Kind::CallSelf));
+                v.push((Kind::CallSelf, Kind::Delegate));
+                v.push((Kind::CallCode, Kind::Delegate));
+                v
+            } else {
+                kinds3.iter().map(|k| (*k, *k)).collect()
+            };
+            for (k1, k2) in kinds {
+                let sc = sstore_plan(k1, k2, p, vals, *e1, *e2, 4);
+                let st = if *o == 0 { vec![] } else { vec![(0, *o)] };
+                w.push(script_case(*spec, &sc, st.clone(), st, 0, 600_000));
+                out.count("boundary-xframe-sstore");
+                out.count(&format!("xframe-sstore-enter-{}", k1.tag()));
+                out.count(&format!("xframe-sstore-ends-{}{}", e1.tag(), if p.contains(&2) { e2.tag() } else { "" }));
+                out.count(&format!("xframe-sstore-writes-{}", vals.len()));
+            }
+        }
+    }
+}
+
+/// logs, transient storage, warmth, value transfers, creates, self-destruct refunds across committing / reverting /
+/// halting frames
+fn xframe_other(out: &mut Out, w: &mut Vec<Case>, big: bool) {
+    let (s, r, h) = (End::Stop, End::Revert, End::Invalid);
+    let ends9 = [(s, s), (s, r), (s, h), (r, s), (r, r), (r, h), (h, s), (h, r), (h, h)];
+    let call = |kind: Kind, body: usize, gas: u64| It::Call { kind, body, gas: Some(gas), value: 0 };
+    // logs: order across frames, dropped with a frame that does not commit
+    for spec in [SpecId::HOMESTEAD, SpecId::BYZANTIUM, SpecId::BERLIN, SpecId::CANCUN, SpecId::PRAGUE] {
+        for kind in [Kind::CallSelf, Kind::Delegate, Kind::CallCode, Kind::CallOther, Kind::Static] {
+            if kind == Kind::Static && !SpecId::enabled(spec, SpecId::BYZANTIUM) {
+                continue;
+            }
+            for (e1, e2) in ends9 {
+                for e0 in [End::Return, End::Revert] {
+                    if e0 == End::Revert && !(big || (e1, e2) == (s, s)) {
+                        continue;
+                    }
+                    let sc = Script {
+                        bodies: vec![
+                            (vec![It::Log(1), call(kind, 1, 200_000), It::Log(5), call(kind, 2, 50_000), It::Log(6)], e0),
+                            (vec![It::Log(2), call(kind, 2, 50_000), It::Log(4)], e1),
+                            (vec![It::Log(3)], e2),
+                        ],
+                        quiet: true,
+                    };
+                    w.push(script_case(spec, &sc, vec![], vec![], 0, 600_000));
+                    out.count("boundary-xframe-logs");
+                }
+            }
+        }
+    }
+    // transient storage: written in frames that revert / halt, read back outside
+    for spec in [SpecId::CANCUN, SpecId::PRAGUE] {
+        for kind in [Kind::CallSelf, Kind::Delegate, Kind::CallCode, Kind::CallOther, Kind::Static] {
+            for (e1, e2) in ends9 {
+                let sc = Script {
+                    bodies: vec![
+                        (vec![It::Tstore(1, 5), call(kind, 1, 200_000), It::Tload(1), It::Tload(2), It::Tload(3)], End::Return),
+                        (vec![It::Tload(1), It::Tstore(1, 9), It::Tstore(3, 4), call(kind, 2, 50_000), It::Tload(1), It::Tload(2)], e1),
+                        (vec![It::Tload(1), It::Tstore(1, 11), It::Tstore(2, 3), It::Tstore(3, 0)], e2),
+                    ],
+                    quiet: kind == Kind::Static,
+                };
+                w.push(script_case(spec, &sc, vec![], vec![], 0, 600_000));
+                out.count("boundary-xframe-transient");
+            }
+        }
+    }
+    // warm / cold: slots and addresses first accessed in a frame that does not commit are cold again afterwards
+    for spec in [SpecId::ISTANBUL, SpecId::BERLIN, SpecId::LONDON, SpecId::CANCUN, SpecId::PRAGUE] {
+        for kind in [Kind::CallSelf, Kind::Delegate, Kind::CallCode, Kind::CallOther] {
+            for (e1, e2) in ends9 {
+                for variant in 0..3 {
+                    // 0: nothing warm before; 1: the outer frame warms slot 3 / 0xbeef first; 2: the access list does
+                    if variant > 0 && !(big || e1 != s || e2 != s) {
+                        continue;
+                    }
+                    let mut b0 = vec![];
+                    if variant == 1 {
+                        b0.push(It::Sload(3));
+                        b0.push(It::Balance(0xbeef));
+                    }
+                    b0.extend([
+                        call(kind, 1, 200_000),
+                        It::Gas,
+                        It::Sload(3),
+                        It::Gas,
+                        It::Sload(4),
+                        It::Gas,
+                        It::Sload(6),
+                        It::Gas,
+                        It::Balance(0xbeef),
+                        It::Gas,
+                        It::ExtCodeSize(0xbef0),
+                        It::Gas,
+                    ]);
+                    let sc = Script {
+                        bodies: vec![
+                            (b0, End::Return),
+                            (vec![It::Sload(3), It::Balance(0xbeef), call(kind, 2, 60_000), It::Sload(4)], e1),
+                            (vec![It::Sload(4), It::ExtCodeSize(0xbef0), It::Sstore(6, 1)], e2),
+                        ],
+                        quiet: true,
+                    };
+                    let mut c = script_case(spec, &sc, vec![(3, 1), (4, 2)], vec![(3, 1), (4, 2)], 0, 600_000);
+                    if variant == 2 {
+                        if !SpecId::enabled(spec, SpecId::BERLIN) {
+                            continue;
+                        }
+                        c.txs[0].access_list = vec![
+                            (a_n(A), vec![U256::from(4u64)]),
+                            (a_n(B), vec![U256::from(3u64)]),
+                            (a_n(0xbef0), vec![]),
+                        ];
+                    }
+                    w.push(c);
+                    out.count("boundary-xframe-warmth");
+                }
+            }
+        }
+    }
+    // value transfers: inner commits, an outer frame undoes
+    for spec in [SpecId::HOMESTEAD, SpecId::SPURIOUS_DRAGON, SpecId::BERLIN, SpecId::CANCUN] {
+        for kind in [Kind::CallSelf, Kind::CallOther, Kind::CallCode] {
+            for (e1, e2) in ends9 {
+                for e0 in [End::Return, End::Revert] {
+                    if e0 == End::Revert && !(big || (e1, e2) == (s, s)) {
+                        continue;
+                    }
+                    let sc = Script {
+                        bodies: vec![
+                            (
+                                vec![
+                                    It::Call { kind, body: 1, gas: Some(300_000), value: 4 },
+                                    It::Balance(0xe0a),
+                                    It::Balance(0xe0b),
+                                    It::Balance(A),
+                                    It::Balance(B),
+                                ],
+                                e0,
+                            ),
+                            (
+                                vec![
+                                    It::CallAddr { to: 0xe0a, gas: Some(0), value: 3 },
+                                    It::Call { kind, body: 2, gas: Some(100_000), value: 1 },
+                                    It::CallAddr { to: 0xe0b, gas: Some(0), value: 1 },
+                                ],
+                                e1,
+                            ),
+                            (vec![It::CallAddr { to: 0xe0b, gas: Some(0), value: 2 }, It::CallAddr { to: 0xe0c, gas: Some(0), value: 0 }], e2),
+                        ],
+                        quiet: true,
+                    };
+                    let mut c = script_case(spec, &sc, vec![], vec![], 100, 900_000);
+                    // 0xe0b exists, 0xe0a / 0xe0c do not
+                    c.accts.push(Acct { addr: a_n(0xe0b), balance: U256::from(1u64), ..Default::default() });
+                    w.push(c);
+                    out.count("boundary-xframe-value");
+                }
+            }
+        }
+    }
+    // creates inside frames that do not commit, re-creation at the same address, nonces after failed creates
+    {
+        let ok = init_return(&[0x00]);
+        let fails: Vec<Vec<u8>> = vec![
+            vec![0x60, 0x00, 0x60, 0x00, 0xfd],                        // REVERT
+            vec![0xfe],                                                // INVALID
+            code(|a| {
+                a.push_u(0xef).push_u(0).op(0x53).push_u(1).push_u(0).op(0xf3); // returns 0xEF…
+            }),
+            code(|a| {
+                a.push_u(0x6001).push_u(0).op(0xf3);                   // oversize
+            }),
+            vec![0x33, 0xff],                                          // initcode self-destructs
+        ];
+        for spec in [SpecId::HOMESTEAD, SpecId::SPURIOUS_DRAGON, SpecId::PETERSBURG, SpecId::BERLIN, SpecId::LONDON, SpecId::CANCUN, SpecId::PRAGUE] {
+            for salt in [None, Some(5u64)] {
+                if salt.is_some() && !SpecId::enabled(spec, SpecId::PETERSBURG) {
+                    continue;
+                }
+                let cr = |init: &Vec<u8>, value: u64| It::Create { salt, init: init.clone(), value };
+                let mut scripts: Vec<Script> = vec![];
+                for kind in [Kind::CallSelf, Kind::Delegate, Kind::CallCode, Kind::CallOther] {
+                    if !big && matches!(kind, Kind::CallCode | Kind::CallOther) {
+                        continue;
+                    }
+                    for e1 in [s, r, h] {
+                        // created in a frame ending in e1, created again outside
+                        scripts.push(Script {
+                            bodies: vec![
+                                (vec![call(kind, 1, 300_000), cr(&ok, 0), cr(&ok, 0)], End::Return),
+                                (vec![cr(&ok, 0)], e1),
+                            ],
+                            quiet: true,
+                        });
+                        // inner-inner creates and commits, inner does not
+                        scripts.push(Script {
+                            bodies: vec![
+                                (vec![call(kind, 1, 400_000), cr(&ok, 0)], End::Return),
+                                (vec![call(kind, 2, 200_000), cr(&ok, 0)], e1),
+                                (vec![cr(&ok, 1)], s),
+                            ],
+                            quiet: true,
+                        });
+                    }
+                    for f in &fails {
+                        scripts.push(Script {
+                            bodies: vec![(vec![call(kind, 1, 300_000), cr(&ok, 0)], End::Return), (vec![cr(f, 0), cr(&ok, 0)], s)],
+                            quiet: true,
+                        });
+                    }
+                }
+                for f in &fails {
+                    scripts.push(Script { bodies: vec![(vec![cr(f, 0), cr(&ok, 0), cr(f, 1), cr(&ok, 0)], End::Return)], quiet: true });
+                }
+                // value above the balance: no nonce bump; then a funded one
+                scripts.push(Script { bodies: vec![(vec![cr(&ok, 101), cr(&ok, 100), cr(&ok, 1), cr(&ok, 0)], End::Return)], quiet: true });
+                for sc in scripts {
+                    w.push(script_case(spec, &sc, vec![], vec![], 100, 1_500_000));
+                    out.count("boundary-xframe-create");
+                }
+            }
+        }
+    }
+    // SELFDESTRUCT refund (before London) and destruction across frames
+    for spec in [SpecId::FRONTIER, SpecId::TANGERINE, SpecId::SPURIOUS_DRAGON, SpecId::ISTANBUL, SpecId::BERLIN, SpecId::LONDON, SpecId::SHANGHAI, SpecId::CANCUN] {
+        for kind in [Kind::CallSelf, Kind::Delegate, Kind::CallCode, Kind::CallOther] {
+            if kind == Kind::Delegate && !SpecId::enabled(spec, SpecId::HOMESTEAD) {
+                continue;
+            }
+            for ben in [End::SelfDestruct(0xdead), End::SelfDestructSelf, End::SelfDestruct(B)] {
+                if !big && ben == End::SelfDestruct(B) {
+                    continue;
+                }
+                let k2 = Kind::CallSelf;
+                let scripts = vec![
+                    vec![(vec![call(kind, 1, 100_000)], End::Return), (vec![], ben)],
+                    vec![(vec![call(kind, 1, 100_000), call(kind, 1, 100_000)], End::Return), (vec![], ben)],
+                    vec![(vec![call(k2, 2, 200_000), call(kind, 1, 100_000)], End::Return), (vec![], ben), (vec![call(kind, 1, 100_000)], r)],
+                    vec![(vec![call(k2, 2, 200_000), call(kind, 1, 100_000)], End::Return), (vec![], ben), (vec![call(kind, 1, 100_000)], s)],
+                    vec![(vec![call(k2, 2, 200_000), It::Balance(0xdead)], End::Return), (vec![], ben), (vec![call(kind, 1, 100_000)], h)],
+                    vec![(vec![call(kind, 1, 100_000)], End::Revert), (vec![], ben)],
+                    vec![(vec![It::Sstore(0, 0), call(kind, 1, 100_000)], End::Return), (vec![It::Sstore(0, 3)], ben)],
+                ];
+                for bodies in scripts {
+                    let sc = Script { bodies, quiet: true };
+                    w.push(script_case(spec, &sc, vec![(0, 9)], vec![(0, 9)], 77, 700_000));
+                    out.count("boundary-xframe-selfdestruct");
+                }
+            }
+        }
+    }
+}
+
+/// gas handed to and returned from a child around the 63/64 boundaries (CALL and CREATE), exact requested gas
+fn xframe_gas(out: &mut Out, w: &mut Vec<Case>, big: bool) {
+    // forwards everything to `target`, returns (child's 3 words, flag, own gas after)
+    let fwd = |target: u64, req: U256, value: u64| -> Vec<u8> {
+        code(|a| {
+            call(a, 0xf1, target, Some(req), value, 0, 0x60);
+            a.push_u(0x60).op(0x52).op(0x5a).push_u(0x80).op(0x52).push_u(0xa0).push_u(0).op(0xf3);
+        })
+    };
+    let report = |end: u8| -> Vec<u8> {
+        code(|a| {
+            a.op(0x5a).push_u(0).op(0x52).push_u(32).push_u(0).op(end);
+        })
+    };
+    let burn = |k: usize, end: u8| -> Vec<u8> {
+        code(|a| {
+            for _ in 0..k {
+                a.push_u(0).op(0x50);
+            }
+            a.op(end);
+        })
+    };
+    let points: Vec<u64> = if big {
+        (0..=200).chain(1440..=1540).chain(2040..=2056).collect()
+    } else {
+        let mut v: Vec<u64> = (0..6).collect();
+        for m in [1u64, 2, 4, 8, 23, 32] {
+            v.extend((64 * m - 3)..=(64 * m + 3));
+        }
+        v
+    };
+    let specs: &[SpecId] = if big {
+        &[SpecId::HOMESTEAD, SpecId::TANGERINE, SpecId::BYZANTIUM, SpecId::ISTANBUL, SpecId::BERLIN, SpecId::CANCUN, SpecId::PRAGUE]
+    } else {
+        &[SpecId::HOMESTEAD, SpecId::TANGERINE, SpecId::BERLIN, SpecId::PRAGUE]
+    };
+    for spec in specs {
+        let en = |s: SpecId| SpecId::enabled(*spec, s);
+        let call_cost: u64 = if en(SpecId::BERLIN) { 2600 } else if en(SpecId::TANGERINE) { 700 } else { 40 };
+        // child ends: returns its gas / reverts with its gas / INVALID
+        for (ci, child) in [report(0xf3), report(0xfd), vec![0xfe]].into_iter().enumerate() {
+            for value in [0u64, 1] {
+                if value == 1 && !(big || ci == 0) {
+                    continue;
+                }
+                let mut c = base(*spec);
+                with_contract(&mut c, A, fwd(B, U256::MAX, value), 10, vec![]);
+                with_contract(&mut c, B, child.clone(), 1, vec![]);
+                // gas left when the call cost has been paid = k (pre-Tangerine the request is the tx's `k` itself)
+                let pre = 21_000 + 7 * 3 + 9 + call_cost + if value > 0 { 9000 } else { 0 };
+                if en(SpecId::TANGERINE) {
+                    for k in &points {
+                        c.txs.push(call_tx(&c, Some(A), pre + k, 0, vec![]));
+                    }
+                } else {
+                    // before EIP-150 a request above what is left is an out-of-gas of the caller
+                    for k in [0u64, 1, 63, 64, 65, 1000] {
+                        c.txs.push(call_tx(&c, Some(A), pre + k, 0, vec![]));
+                    }
+                }
+                out.count("boundary-xframe-gas-6364-call");
+                w.push(c);
+            }
+        }
+        // two levels: (63/64)^2
+        {
+            let mut c = base(*spec);
+            with_contract(&mut c, A, fwd(B, U256::MAX, 0), 10, vec![]);
+            with_contract(&mut c, B, fwd(C, U256::MAX, 0), 1, vec![]);
+            with_contract(&mut c, C, report(0xf3), 1, vec![]);
+            let pre = 21_000 + 30 + call_cost + ((30 + call_cost) * 64 + 62) / 63;
+            if en(SpecId::TANGERINE) {
+                for k in &points {
+                    c.txs.push(call_tx(&c, Some(A), pre + k, 0, vec![]));
+                }
+                out.count("boundary-xframe-gas-6364-nested");
+                w.push(c);
+            }
+        }
+        // exact requested gas: the child needs exactly `cost` gas before its last instruction
+        for (end, cost) in [(0x00u8, 640u64), (0xfd, 636), (0xfe, 636)] {
+            let mut c = base(*spec);
+            let body = if end == 0x00 {
+                burn(128, 0x00)
+            } else {
+                code(|a| {
+                    for _ in 0..126 {
+                        a.push_u(0).op(0x50);
+                    }
+                    a.push_u(0).push_u(0).op(end);
+                })
+            };
+            with_contract(&mut c, B, body, 1, vec![]);
+            let mut callers = vec![];
+            for (i, req) in [cost - 1, cost, cost + 1, 0, 1].into_iter().enumerate() {
+                // one caller per requested amount, each at its own address
+                let addr = 0x2000 + i as u64;
+                with_contract(&mut c, addr, fwd(B, U256::from(req), 0), 10, vec![]);
+                callers.push(addr);
+            }
+            for addr in callers {
+                c.txs.push(call_tx(&c, Some(addr), 100_000, 0, vec![]));
+            }
+            out.count("boundary-xframe-gas-exact-request");
+            w.push(c);
+        }
+        // CREATE keeps 1/64: the initcode burns everything it was given
+        if en(SpecId::HOMESTEAD) {
+            let mut c = base(*spec);
+            with_contract(&mut c, A, code(|a| {
+                create(a, &[0xfe], 0, None);
+                a.push_u(0).op(0x52).op(0x5a).push_u(0x20).op(0x52).push_u(0x40).push_u(0).op(0xf3);
+            }), 10, vec![]);
+            let pre = 21_000 + 3 + 3 + 6 + 3 * 3 + 32_000 + if en(SpecId::SHANGHAI) { 2 } else { 0 };
+            for k in &points {
+                c.txs.push(call_tx(&c, Some(A), pre + k, 0, vec![]));
+            }
+            out.count("boundary-xframe-gas-6364-create");
+            w.push(c);
+        }
+    }
+}
+
+/// every opcode byte once, with 17 small operands below it; the word on top of the stack afterwards is returned
+fn opcode_sweep(out: &mut Out, w: &mut Vec<Case>, big: bool) {
+    let specs: &[SpecId] = if big {
+        &ALL
+    } else {
+        &[SpecId::FRONTIER, SpecId::HOMESTEAD, SpecId::BYZANTIUM, SpecId::PETERSBURG, SpecId::ISTANBUL, SpecId::LONDON, SpecId::SHANGHAI, SpecId::CANCUN, SpecId::PRAGUE]
+    };
+    for spec in specs {
+        for op in 0u16..=255 {
+            let op = op as u8;
+            let prog = code(|a| {
+                for i in (1..=17u64).rev() {
+                    a.push_u(i);
+                }
+                match op {
+                    0x56 => {
+                        let p = a.push_label();
+                        a.op(op);
+                        let t = a.here();
+                        a.patch(p, t);
+                        a.op(0x5b);
+                    }
+                    0x57 => {
+                        a.push_u(1);
+                        let p = a.push_label();
+                        a.op(op);
+                        let t = a.here();
+                        a.patch(p, t);
+                        a.op(0x5b);
+                    }
+                    0xf1 | 0xf2 | 0xf4 | 0xfa => {
+                        a.op(0x50).push_u(50_000).op(op);
+                    }
+                    0x40 => {
+                        a.op(0x50).push_u(999).op(op);
+                    }
+                    _ => {
+                        a.op(op);
+                    }
+                }
+                a.push_u(0).op(0x52).push_u(32).push_u(0).op(0xf3);
+            });
+            let mut c = base(*spec);
+            with_contract(&mut c, A, prog, 1000, vec![(1, 5), (2, 6)]);
+            c.txs.push(call_tx(&c, Some(A), 200_000, 2, vec![0x11; 40]));
+            w.push(c);
+            out.count("boundary-opcode-sweep");
+        }
+    }
+}
+
+/// blob transactions: count / version / fee-cap / balance boundaries, blob fee kept whatever the execution does
+fn blob_family(out: &mut Out, w: &mut Vec<Case>, _big: bool) {
+    let vh = |i: u64, version: u8| {
+        let mut b = [0u8; 32];
+        b[0] = version;
+        b[31] = i as u8 + 1;
+        B256::from(b)
+    };
+    for spec in [SpecId::SHANGHAI, SpecId::CANCUN, SpecId::PRAGUE] {
+        for price in [1u128, 3, 1000] {
+            let mut c = base(spec);
+            c.blob_gasprice = if SpecId::enabled(spec, SpecId::CANCUN) || price == 3 { Some(price) } else { None };
+            // three contracts: the same reads and a refund-earning SSTORE, ending in RETURN / REVERT / INVALID
+            for (i, end) in [0xf3u8, 0xfd, 0xfe].into_iter().enumerate() {
+                with_contract(&mut c, A + i as u64, code(|a| {
+                    for (j, idx) in [0u64, 1, 5, 6, 8, 9].into_iter().enumerate() {
+                        a.push_u(idx).op(0x49).push_u(32 * j as u64).op(0x52);
+                    }
+                    a.op(0x4a).push_u(192).op(0x52);
+                    a.push_u(0).push_u(0).op(0x55);
+                    a.push_u(224).push_u(0).op(end);
+                }), 0, vec![(0, 5)]);
+            }
+            let mk = |c: &Case, to: Option<u64>, nb: usize, cap: u128| {
+                let mut t = call_tx(c, to, 300_000, 1, vec![]);
+                t.prio = Some(U256::from(1u64));
+                t.blobs = (0..nb).map(|i| vh(i as u64, 1)).collect();
+                t.max_blob_fee = Some(U256::from(cap));
+                t
+            };
+            for nb in [0usize, 1, 2, 6, 7, 9, 10] {
+                for cap in [price.saturating_sub(1), price, price + 1] {
+                    for to in [A, A + 1, A + 2] {
+                        if to != A && !(cap == price && (nb == 1 || nb == 6)) {
+                            continue;
+                        }
+                        c.txs.push(mk(&c, Some(to), nb, cap));
+                    }
+                }
+            }
+            // wrong version byte (first / last hash), create transaction, no fee cap, plain transfer with blobs
+            for (nb, bad) in [(1usize, 0usize), (3, 2), (3, 0)] {
+                let mut t = mk(&c, Some(A), nb, price);
+                t.blobs[bad] = vh(bad as u64, 2);
+                c.txs.push(t);
+            }
+            c.txs.push(mk(&c, None, 1, price));
+            let mut t = mk(&c, Some(A), 1, price);
+            t.max_blob_fee = None;
+            c.txs.push(t);
+            c.txs.push(mk(&c, Some(0xdead), 2, price));
+            // a fee cap without blobs
+            let mut t = call_tx(&c, Some(A), 300_000, 0, vec![]);
+            t.max_blob_fee = Some(U256::from(price));
+            c.txs.push(t);
+            out.count("boundary-blob");
+            w.push(c);
+            // sender balance exactly gas_limit * max_fee + value + blobs * 2^17 * max_fee_per_blob_gas, and one less
+            for short in [0u64, 1] {
+                let mut c = base(spec);
+                c.blob_gasprice = Some(price);
+                with_contract(&mut c, A, vec![0x00], 0, vec![]);
+                let t = mk(&c, Some(A), 2, price + 1);
+                let need = U256::from(t.gas_limit) * t.gas_price + t.value + U256::from(2u64 * 131_072) * U256::from(price + 1);
+                c.accts[0].balance = need - U256::from(short);
+                c.txs.push(t);
+                out.count("boundary-blob-balance");
+                w.push(c);
+            }
+        }
+    }
+}
+
+/// EIP-7702: the refund of the authorization list together with SSTORE refunds earned (and taken back) in nested
+/// frames of the delegated code, under the EIP-3529 cap
+fn eip7702_refund_family(out: &mut Out, w: &mut Vec<Case>, big: bool) {
+    let spec = SpecId::PRAGUE;
+    let eoa = 0xaaaa02u64;
+    let eoa_new = 0xaaaa09u64;
+    let (s, r, h) = (End::Stop, End::Revert, End::Invalid);
+    let auth = |authority: u64, address: u64, nonce: u64| AuthItem {
+        chain_id: U256::from(1u64),
+        address: a_n(address),
+        nonce,
+        authority: Some(a_n(authority)),
+    };
+    let plans: Vec<(Vec<usize>, Vec<u64>)> = vec![
+        (vec![0, 1], vec![0, X]),
+        (vec![1, 4], vec![0, X]),
+        (vec![1, 2], vec![0, Y]),
+        (vec![0, 2, 4], vec![0, Y, 0]),
+        (vec![1, 1], vec![0, 0]),
+    ];
+    for kind in [Kind::CallSelf, Kind::Delegate, Kind::CallCode] {
+        for (pos, vals) in &plans {
+            for (e1, e2) in [(s, s), (r, s), (s, h)] {
+                if !big && kind != Kind::Delegate && (e1, e2) != (s, s) {
+                    continue;
+                }
+                let sc = sstore_plan(kind, kind, pos, vals, e1, e2, 8);
+                let mut c = base(spec);
+                let prog = compile(&sc, B);
+                with_contract(&mut c, A, prog.clone(), 0, vec![(0, X)]);
+                with_contract(&mut c, B, prog, 0, vec![(0, X)]);
+                // the authority exists with the slot set: the delegated code runs on the authority's storage
+                c.accts.push(Acct {
+                    addr: a_n(eoa),
+                    balance: U256::from(1000u64),
+                    nonce: 3,
+                    storage: vec![(U256::ZERO, U256::from(X))],
+                    ..Default::default()
+                });
+                for list in [
+                    vec![auth(eoa, A, 3)],
+                    vec![auth(eoa, A, 3), auth(eoa_new, A, 0)],
+                    vec![auth(eoa_new, B, 0), auth(eoa, A, 3), auth(eoa, B, 4)],
+                    vec![auth(eoa, A, 4)],
+                ] {
+                    let mut t = call_tx(&c, Some(eoa), 900_000, 0, vec![]);
+                    t.prio = Some(U256::from(1u64));
+                    t.auth = Some(list);
+                    c.txs.push(t);
+                }
+                out.count("boundary-eip7702-xframe-refund");
+                w.push(c);
+            }
+        }
+    }
+}
+
+/// Numbers `nz` of non-zero calldata bytes at which, by the accounting of the specification, one of these flips between
+/// `nz` and `nz + 1`: floor >= used - raw counter, floor >= used - capped refund, floor >= used, raw counter >= cap,
+/// floor > gas limit; each with `lo` points below and `hi` above. `intr0`: intrinsic gas without calldata, `exec`: gas
+/// of the execution, `raw`: refund counter, `halt_limit`: the gas limit of a transaction that halts (uses all of it).
+pub fn floor_points(intr0: u64, exec: u64, raw: u64, gas_limit: u64, halts: bool, lo: u64, hi: u64) -> Vec<u64> {
+    let floor = |nz: u64| 21_000 + 40 * nz;
+    let used = |nz: u64| if halts { gas_limit } else { intr0 + 16 * nz + exec };
+    let preds = |nz: u64| -> [bool; 5] {
+        let u = used(nz);
+        [
+            floor(nz) >= u.saturating_sub(raw),
+            floor(nz) >= u - raw.min(u / 5),
+            floor(nz) >= u,
+            raw >= u / 5,
+            floor(nz) > gas_limit,
+        ]
+    };
+    let mut points: std::collections::BTreeSet<u64> = Default::default();
+    for nz in 0..3000u64 {
+        if preds(nz) != preds(nz + 1) {
+            for d in nz.saturating_sub(lo)..=nz + hi {
+                points.insert(d);
+            }
+        }
+    }
+    points.into_iter().collect()
+}
+
+/// Prague: the EIP-7623 calldata floor against gas used minus the refund. The specification first caps the refund
+/// counter (SSTORE refunds + EIP-7702 authority refunds) at a fifth of the gas used, subtracts it, and only then takes
+/// the maximum with the floor. Calldata sizes sweep the floor across `used - raw counter`, `used - capped refund`,
+/// `used`, and the point where the counter meets the cap - for counters below / above the cap, with and without
+/// authorizations of existing authorities, for success / revert / halt.
+fn floor_refund_family(out: &mut Out, w: &mut Vec<Case>, big: bool) {
+    let eoa = 0xaaaa02u64;
+    let eoa_b = 0xaaaa03u64;
+    let eoa_new = 0xaaaa09u64;
+    let auth = |authority: Option<u64>, nonce: u64| AuthItem {
+        chain_id: U256::from(1u64),
+        address: a_n(B),
+        nonce,
+        authority: authority.map(a_n),
+    };
+    // (list, number of valid authorizations of authorities that exist)
+    let lists: Vec<(Vec<AuthItem>, u64)> = vec![
+        (vec![], 0),
+        (vec![auth(Some(eoa), 3)], 1),
+        (vec![auth(Some(eoa), 3), auth(Some(eoa_b), 0)], 2),
+        (vec![auth(Some(eoa_new), 0), auth(Some(eoa), 3), auth(None, 0), auth(Some(eoa_b), 5)], 1),
+    ];
+    for spec in [SpecId::PRAGUE, SpecId::CANCUN] {
+        for n in [0u64, 1, 2, 4, 8] {
+            for end in [0xf3u8, 0xfd, 0xfe] {
+                for (ai, (list, existing)) in lists.iter().enumerate() {
+                    if spec == SpecId::CANCUN && (ai > 0 || n != 4) {
+                        continue;
+                    }
+                    if !big && ai == 3 && n != 2 {
+                        continue;
+                    }
+                    let mut c = base(spec);
+                    with_contract(&mut c, A, code(|a| {
+                        for k in 0..n {
+                            a.push_u(0).push_u(k).op(0x55);
+                        }
+                        if end != 0xfe {
+                            a.push_u(0).push_u(0);
+                        }
+                        a.op(end);
+                    }), 0, (0..n).map(|k| (k, 0xff)).collect());
+                    with_contract(&mut c, B, vec![0x00], 0, vec![]);
+                    c.accts.push(Acct { addr: a_n(eoa), balance: U256::from(1u64), nonce: 3, ..Default::default() });
+                    c.accts.push(Acct { addr: a_n(eoa_b), balance: U256::from(1u64), nonce: 0, ..Default::default() });
+                    // the accounting of the specification, as functions of the number of non-zero calldata bytes
+                    let exec = n * 5006 + if end == 0xfe { 0 } else { 6 };
+                    let nauth = list.len() as u64;
+                    let gas_limit = if end == 0xfe { 60_000 + 25_000 * nauth } else { 400_000 };
+                    let raw = (if end == 0xf3 { 4800 * n } else { 0 }) + 12_500 * existing;
+                    let mut points: std::collections::BTreeSet<u64> = [0u64, 1, 200, 1300].into_iter().collect();
+                    let (lo, hi) = if big { (6, 7) } else { (2, 3) };
+                    points.extend(floor_points(21_000 + 25_000 * nauth, exec, raw, gas_limit, end == 0xfe, lo, hi));
+                    for nz in points {
+                        let mut t = call_tx(&c, Some(A), gas_limit, 0, vec![0x11; nz as usize]);
+                        if !list.is_empty() {
+                            t.prio = Some(U256::from(1u64));
+                            t.auth = Some(list.clone());
+                        }
+                        c.txs.push(t);
+                        out.count("floor-refund-transactions");
+                    }
+                    out.count("boundary-floor-refund");
+                    w.push(c);
+                }
+            }
+        }
+    }
+}
+
 const ALL: [SpecId; 13] = [
     SpecId::FRONTIER,
     SpecId::HOMESTEAD,
@@ -779,6 +1756,26 @@ pub fn boundary(out: &mut Out, big: bool) -> Vec<Case> {
             }
         }
     }
+    // cross-frame families and the opcode sweep: no derived gas limits (the programs are the boundary)
+    {
+        let mut w: Vec<Case> = vec![];
+        xframe_sstore(out, &mut w, big);
+        xframe_other(out, &mut w, big);
+        xframe_gas(out, &mut w, big);
+        opcode_sweep(out, &mut w, big);
+        blob_family(out, &mut w, big);
+        eip7702_refund_family(out, &mut w, big);
+        floor_refund_family(out, &mut w, big);
+        for (i, c) in w.iter_mut().enumerate() {
+            // single generous gas limits get the case index added: the request lines become distinct (the evidence
+            // counts distinct transaction lines), nothing else changes
+            if c.txs.len() == 1 && c.txs[0].gas_limit >= 200_000 {
+                c.txs[0].gas_limit += i as u64;
+            }
+            add_oracle(c);
+        }
+        v.append(&mut w);
+    }
     // the real EIP-3860 sizes (thorough tier only; no derived gas limits: each run of the list-based Lean model on a
     // 49152-byte initcode takes tens of seconds)
     if big {
@@ -798,5 +1795,47 @@ pub fn boundary(out: &mut Out, big: bool) -> Vec<Case> {
             v.push(c);
         }
     }
+    // the achieved distribution over the rule families named in the property text (cases per family)
+    let mut fam: std::collections::BTreeMap<&'static str, u64> = Default::default();
+    for (k, n) in out.dist.iter() {
+        if let Some(tag) = k.strip_prefix("boundary-") {
+            *fam.entry(family_of(tag)).or_insert(0) += *n;
+        }
+    }
+    for (f, n) in fam {
+        *out.dist.entry(format!("family-{}-boundary-cases", f)).or_insert(0) += n;
+    }
+    out.dist.insert("boundary-transactions".into(), v.iter().map(|c| c.txs.len() as u64).sum());
     v
+}
+
+/// the rule family of the property text ("every legacy opcode, nested calls and creates, refunds, self-destruct,
+/// access lists, blob and EIP-7702 transactions") a boundary tag belongs to
+pub fn family_of(tag: &str) -> &'static str {
+    let has = |p: &str| tag.starts_with(p);
+    if has("opcode-sweep") || has("exp-mem") || has("returndata") || has("static-") || has("account-queries") || has("transient") || has("xframe-transient") {
+        "opcodes"
+    } else if has("xframe-sstore") || has("refund-cap") || has("sstore-") {
+        "refunds"
+    } else if has("selfdestruct") || has("xframe-selfdestruct") {
+        "self-destruct"
+    } else if has("access-list") || has("xframe-warmth") {
+        "access-lists-and-warmth"
+    } else if has("blob") || has("fees") {
+        "blob-and-fee-transactions"
+    } else if has("eip7702") || has("delegated-prestate") {
+        "eip7702-transactions"
+    } else if has("precompile") || has("ripemd") {
+        "precompiles"
+    } else if has("depth") || has("stipend") || has("gas-forwarding") || has("call-context") || has("xframe-gas") || has("xframe-logs") || has("xframe-value") || has("plain-transfers") {
+        "nested-calls"
+    } else if has("codesize") || has("ef-prefix") || has("deposit") || has("limits") || has("create-nonce") || has("tx-create") || has("xframe-create") || has("initcode") {
+        "creates"
+    } else if has("floor-refund") {
+        "refunds"
+    } else if has("floor") {
+        "intrinsic-gas-and-floor"
+    } else {
+        "other"
+    }
 }
